@@ -1,5 +1,5 @@
 (* Proofs about Model/Proc.v *)
-From TxV Require Import Core.Base Model.Proc.
+From TxV Require Import Core.Base Model.Proc Gen.SrcProc.
 
 Scheme value_mind := Induction for value Sort Prop
   with fields_mind := Induction for fields Sort Prop
@@ -9,10 +9,13 @@ Combined Scheme tree_mutind from value_mind, fields_mind, values_mind.
 Section WalkProofs.
   Variable reg : nat -> bool.
   Variable proc : nat -> value -> option value.
+  Variable truthy : value -> bool.
 
-  Notation walk := (walk reg proc).
-  Notation walk_fields := (walk_fields reg proc).
-  Notation walk_values := (walk_values reg proc).
+  (* the walk instantiated by the standard facts; `walk_src_*` below transfers everything to
+     the facts translated from the source *)
+  Notation walk := (walk std_facts reg proc truthy).
+  Notation walk_fields := (walk_fields std_facts reg proc truthy).
+  Notation walk_values := (walk_values std_facts reg proc truthy).
   Notation result := (result reg proc).
   Notation after := (after reg proc).
   Notation after_fields := (after_fields reg proc).
@@ -28,21 +31,41 @@ Section WalkProofs.
     if d_match d then None else result d (after d v).
 
   (* unfolding equations (the mutual fixpoints do not refold nicely under cbn) *)
+  Lemma walk_obj d id c fs log :
+    walk d (VObj id c fs) log =
+    if d_match d then (log, VObj id c fs, None)
+    else
+      let '(log1, fs') := walk_fields fs log in
+      if own_called reg c d
+      then if reg (d_nm d)
+           then ((log1 ++ [(c_nm c, VObj id c fs')]) ++ [(d_nm d, VObj id c fs')], VObj id c fs',
+                 match proc (c_nm c) (VObj id c fs') with Some r => Some r | None => proc (d_nm d) (VObj id c fs') end)
+           else (log1 ++ [(c_nm c, VObj id c fs')], VObj id c fs',
+                 match proc (c_nm c) (VObj id c fs') with Some r => Some r | None => None end)
+      else if reg (d_nm d)
+           then (log1 ++ [(d_nm d, VObj id c fs')], VObj id c fs', proc (d_nm d) (VObj id c fs'))
+           else (log1, VObj id c fs', None).
+  Proof. reflexivity. Qed.
+
+  Lemma walk_nonobj d v log :
+    vid v = None ->
+    walk d v log =
+    if d_match d then (log, v, None)
+    else if reg (d_nm d) then (log ++ [(d_nm d, v)], v, proc (d_nm d) v) else (log, v, None).
+  Proof. destruct v; [reflexivity | reflexivity | discriminate]. Qed.
+
   Lemma walk_fields_one n cont d v rest log :
     walk_fields (FOne n cont d v rest) log =
-    if cont then
-      match v with
-      | VNone => let '(log2, rest') := walk_fields rest log in (log2, FOne n cont d VNone rest')
-      | _ => let '(log1, v', r) := walk d v log in
-             let '(log2, rest') := walk_fields rest log1 in
-             (log2, FOne n cont d (match r with Some x => x | None => v' end) rest')
-      end
+    if cont && negb (is_none v) then
+      let '(log1, v', r) := walk d v log in
+      let '(log2, rest') := walk_fields rest log1 in
+      (log2, FOne n cont d (match r with Some x => x | None => v' end) rest')
     else let '(log2, rest') := walk_fields rest log in (log2, FOne n cont d v rest').
   Proof. reflexivity. Qed.
 
   Lemma walk_fields_many n cont d vs rest log :
     walk_fields (FMany n cont d vs rest) log =
-    if cont then
+    if cont && true then
       let '(log1, vs') := walk_values d vs log in
       let '(log2, rest') := walk_fields rest log1 in (log2, FMany n cont d vs' rest')
     else let '(log2, rest') := walk_fields rest log in (log2, FMany n cont d vs rest').
@@ -50,12 +73,11 @@ Section WalkProofs.
 
   Lemma walk_values_cons d v vs0 log :
     walk_values d (VsCons v vs0) log =
-    match v with
-    | VNone => let '(log2, vs') := walk_values d vs0 log in (log2, VsCons VNone vs')
-    | _ => let '(log1, v', r) := walk d v log in
-           let '(log2, vs') := walk_values d vs0 log1 in
-           (log2, VsCons (match r with Some x => x | None => v' end) vs')
-    end.
+    if negb (is_none v) then
+      let '(log1, v', r) := walk d v log in
+      let '(log2, vs') := walk_values d vs0 log1 in
+      (log2, VsCons (match r with Some x => x | None => v' end) vs')
+    else let '(log2, vs') := walk_values d vs0 log in (log2, VsCons v vs').
   Proof. reflexivity. Qed.
 
   Lemma visits_fields_one n cont d v rest :
@@ -106,19 +128,23 @@ Section WalkProofs.
   Proof.
     apply tree_mutind.
     - (* VNone *)
-      intros d log. unfold ret. cbn [Proc.walk Proc.visits Proc.after].
+      intros d log. rewrite walk_nonobj by reflexivity. unfold ret. cbn [Proc.visits Proc.after].
       destruct (d_match d) eqn:Em.
       + cbn [flat_map]. rewrite app_nil_r. reflexivity.
       + cbn [flat_map Proc.events]. unfold Proc.result.
         destruct (reg (d_nm d)); cbn [app]; rewrite ?app_nil_r; reflexivity.
     - (* VAtom *)
-      intros a d log. unfold ret. cbn [Proc.walk Proc.visits Proc.after].
+      intros a d log. rewrite walk_nonobj by reflexivity. unfold ret. cbn [Proc.visits Proc.after].
       destruct (d_match d) eqn:Em.
       + cbn [flat_map]. rewrite app_nil_r. reflexivity.
       + cbn [flat_map Proc.events]. unfold Proc.result.
         destruct (reg (d_nm d)); cbn [app]; rewrite ?app_nil_r; reflexivity.
     - (* VObj *)
-      intros id c fs IHfs d log. unfold ret. cbn [Proc.walk Proc.visits Proc.after].
+      intros id c fs IHfs d log. rewrite walk_obj. unfold ret.
+      change (visits d (VObj id c fs)) with
+        (if d_match d then [] else visits_fields fs ++ [(d, VObj id c (after_fields fs))]).
+      change (after d (VObj id c fs)) with
+        (if d_match d then VObj id c fs else VObj id c (after_fields fs)).
       destruct (d_match d) eqn:Em.
       + cbn [flat_map]. rewrite app_nil_r. reflexivity.
       + rewrite IHfs. rewrite flat_map_app. cbn [flat_map Proc.events]. unfold Proc.result.
@@ -129,8 +155,8 @@ Section WalkProofs.
     - (* FOne *)
       intros n cont d v IHv rest IHrest log.
       rewrite walk_fields_one, visits_fields_one, after_fields_one.
-      destruct cont.
-      + destruct (is_none v) eqn:Hn.
+      destruct cont; cbn [andb].
+      + destruct (is_none v) eqn:Hn; cbn [negb].
         * destruct v; try discriminate. rewrite IHrest. reflexivity.
         * rewrite (settle_not_none d v Hn).
           destruct v as [|a|id c fs]; [discriminate| |];
@@ -139,7 +165,7 @@ Section WalkProofs.
     - (* FMany *)
       intros n cont d vs IHvs rest IHrest log.
       rewrite walk_fields_many, visits_fields_many, after_fields_many.
-      destruct cont.
+      destruct cont; cbn [andb].
       + rewrite IHvs, IHrest. rewrite flat_map_app, app_assoc. reflexivity.
       + rewrite IHrest. reflexivity.
     - (* VsNil *)
@@ -147,7 +173,7 @@ Section WalkProofs.
     - (* VsCons *)
       intros v IHv vs IHvs d log.
       rewrite walk_values_cons, visits_values_cons, after_values_cons.
-      destruct (is_none v) eqn:Hn.
+      destruct (is_none v) eqn:Hn; cbn [negb].
       + destruct v; try discriminate. rewrite IHvs. reflexivity.
       + rewrite (settle_not_none d v Hn).
         destruct v as [|a|id c fs]; [discriminate| |];
@@ -167,9 +193,62 @@ Section WalkProofs.
   Proof. apply walk_spec_all. Qed.
 
   Lemma walk_root_spec d v :
-    walk_root reg proc d v = (schedule d v, after d v).
+    walk_root std_facts reg proc truthy d v = (schedule d v, after d v).
   Proof. unfold walk_root. rewrite walk_spec. reflexivity. Qed.
 End WalkProofs.
+
+(* ------------------------------------------------------------------ the translated facts *)
+Lemma rtest_eqb_eq a b : rtest_eqb a b = true -> a = b.
+Proof. destruct a, b; (reflexivity || discriminate). Qed.
+Lemma wstep_eqb_eq a b : wstep_eqb a b = true -> a = b.
+Proof. destruct a, b; (reflexivity || discriminate). Qed.
+Lemma wsteps_eqb_eq a : forall b, wsteps_eqb a b = true -> a = b.
+Proof.
+  induction a as [|x a IH]; intros [|y b] H; try discriminate; [reflexivity|].
+  cbn in H. apply andb_true_iff in H. destruct H as [H1 H2].
+  apply wstep_eqb_eq in H1. apply IH in H2. congruence.
+Qed.
+Lemma retpol_eqb_eq a b : retpol_eqb a b = true -> a = b.
+Proof. destruct a, b; (reflexivity || discriminate). Qed.
+
+(* the decidable check on the facts pins them completely *)
+Lemma facts_ok_std F : facts_ok F = true -> F = std_facts.
+Proof.
+  destruct F as [f1 f2 f3 f4 f5 f6 f7 f8 f9 f10]. unfold facts_ok. cbn [wf_match_skip wf_only_cont
+    wf_attr_test wf_elem_test wf_repl_single wf_repl_list wf_order wf_own_fqn wf_own_name wf_ret].
+  intro H.
+  apply andb_prop in H; destruct H as [H H10]. apply andb_prop in H; destruct H as [H H9].
+  apply andb_prop in H; destruct H as [H H8]. apply andb_prop in H; destruct H as [H H7].
+  apply andb_prop in H; destruct H as [H H6]. apply andb_prop in H; destruct H as [H H5].
+  apply andb_prop in H; destruct H as [H H4]. apply andb_prop in H; destruct H as [H H3].
+  apply andb_prop in H; destruct H as [H1 H2].
+  apply rtest_eqb_eq in H3. apply rtest_eqb_eq in H4. apply rtest_eqb_eq in H5. apply rtest_eqb_eq in H6.
+  apply wsteps_eqb_eq in H7. apply retpol_eqb_eq in H10.
+  destruct f1; [|discriminate H1]. destruct f2; [|discriminate H2].
+  destruct f8; [|discriminate H8]. destruct f9; [|discriminate H9].
+  subst. reflexivity.
+Qed.
+
+Lemma src_facts_ok : facts_ok src_facts = true.
+Proof. vm_compute. reflexivity. Qed.
+
+Lemma src_facts_std : src_facts = std_facts.
+Proof. apply facts_ok_std, src_facts_ok. Qed.
+
+Lemma walk_src_spec reg proc truthy d v log :
+  Proc.walk src_facts reg proc truthy d v log =
+  (log ++ schedule reg proc d v, after reg proc d v,
+   if d_match d then None else result reg proc d (after reg proc d v)).
+Proof. rewrite src_facts_std. apply walk_spec. Qed.
+
+Lemma walk_root_src_spec reg proc truthy d v :
+  walk_root src_facts reg proc truthy d v = (schedule reg proc d v, after reg proc d v).
+Proof. rewrite src_facts_std. apply walk_root_spec. Qed.
+
+Lemma walk_fields_src_spec reg proc truthy fs log :
+  Proc.walk_fields src_facts reg proc truthy fs log =
+  (log ++ flat_map (events reg) (visits_fields reg proc fs), after_fields reg proc fs).
+Proof. rewrite src_facts_std. apply walk_fields_spec. Qed.
 
 (* ================================================================== corollaries *)
 Section Corollaries.
@@ -767,12 +846,14 @@ End Phases.
 Section Final.
   Variable reg : nat -> bool.
   Variable proc : nat -> value -> option value.
+  Variable truthy : value -> bool.
 
-  Definition log_of (d : dcl) (v : value) : list (nat * value) := fst (walk_root reg proc d v).
-  Definition model_after (d : dcl) (v : value) : value := snd (walk_root reg proc d v).
+  (* the calls made / the tree left by the walk instantiated with the facts of the source *)
+  Definition log_of (d : dcl) (v : value) : list (nat * value) := fst (walk_root src_facts reg proc truthy d v).
+  Definition model_after (d : dcl) (v : value) : value := snd (walk_root src_facts reg proc truthy d v).
 
   Lemma log_of_schedule d v : log_of d v = schedule reg proc d v.
-  Proof. unfold log_of. rewrite walk_root_spec. reflexivity. Qed.
+  Proof. unfold log_of. rewrite walk_root_src_spec. reflexivity. Qed.
 
   Lemma final_once_own d v d' id c fs :
     NoDup (ids_of (nodes d v)) -> In (d', VObj id c fs) (nodes d v) -> reg (c_nm c) = true ->
@@ -835,23 +916,97 @@ Section Final.
   (* all objects below an object are nodes of the tree: `below` really lists the contained objects *)
 
   Lemma final_model d v : model_after d v = after reg proc d v.
-  Proof. unfold model_after. rewrite walk_root_spec. reflexivity. Qed.
+  Proof. unfold model_after. rewrite walk_root_src_spec. reflexivity. Qed.
 
   Lemma final_slot_one n d v rest log :
-    snd (walk_fields reg proc (FOne n true d v rest) log) =
+    snd (Proc.walk_fields src_facts reg proc truthy (FOne n true d v rest) log) =
     FOne n true d (settle reg proc d v) (after_fields reg proc rest).
-  Proof. rewrite walk_fields_spec. reflexivity. Qed.
+  Proof. rewrite walk_fields_src_spec. reflexivity. Qed.
 
   Lemma final_slot_many n d vs rest log :
-    exists vs', snd (walk_fields reg proc (FMany n true d vs rest) log) =
+    exists vs', snd (Proc.walk_fields src_facts reg proc truthy (FMany n true d vs rest) log) =
                 FMany n true d vs' (after_fields reg proc rest) /\
                 values_to_list vs' = map (settle reg proc d) (values_to_list vs).
   Proof.
-    rewrite walk_fields_spec. exists (after_values reg proc d vs). split; [reflexivity|].
+    rewrite walk_fields_src_spec. exists (after_values reg proc d vs). split; [reflexivity|].
     apply after_values_list.
   Qed.
 
   Lemma final_noncont_untouched n d v rest log :
-    snd (walk_fields reg proc (FOne n false d v rest) log) = FOne n false d v (after_fields reg proc rest).
-  Proof. rewrite walk_fields_spec. reflexivity. Qed.
+    snd (Proc.walk_fields src_facts reg proc truthy (FOne n false d v rest) log) = FOne n false d v (after_fields reg proc rest).
+  Proof. rewrite walk_fields_src_spec. reflexivity. Qed.
 End Final.
+
+(* ================================================================== match-rule processors *)
+Scheme ptree_mind := Induction for ptree Sort Prop
+  with ptrees_mind := Induction for ptrees Sort Prop.
+Combined Scheme ptree_mutind from ptree_mind, ptrees_mind.
+
+Section MatchProofs.
+  Variable mreg : nat -> bool.
+  Variable mproc : nat -> list N -> list N.
+  Notation pmatch := (pmatch mreg mproc).
+  Notation pmatch_join := (pmatch_join mreg mproc).
+  Notation mval := (mval mreg mproc).
+  Notation mvals := (mvals mreg mproc).
+  Notation mevents_kids := (mevents_kids mreg mproc).
+
+  Lemma pmatch_node r ks log :
+    pmatch (PNode r ks) log =
+    let '(log1, res) := match ks with PCons k PNil => pmatch k log | _ => pmatch_join ks log end in
+    mcall mreg mproc r res log1.
+  Proof. reflexivity. Qed.
+
+  Lemma pmatch_join_cons k ks log :
+    pmatch_join (PCons k ks) log =
+    let '(log1, a) := pmatch k log in let '(log2, b) := pmatch_join ks log1 in (log2, a ++ b).
+  Proof. reflexivity. Qed.
+
+  Lemma mcall_spec r s log :
+    mcall mreg mproc r s log = (log ++ (if mreg r then [(r, s)] else []), mapp mreg mproc r s).
+  Proof. unfold mcall, mapp. destruct (mreg r); [reflexivity | rewrite app_nil_r; reflexivity]. Qed.
+
+  Lemma pmatch_spec_all :
+    (forall t log, pmatch t log = (log ++ Proc.mevents mreg mproc t, mval t)) /\
+    (forall ks log, pmatch_join ks log = (log ++ mevents_kids ks, mvals ks)).
+  Proof.
+    apply ptree_mutind.
+    - intros r s log. cbn [Proc.pmatch Proc.mevents Proc.mval]. apply mcall_spec.
+    - intros r ks IH log. rewrite pmatch_node.
+      assert (E : match ks with PCons k PNil => pmatch k log | _ => pmatch_join ks log end
+                  = (log ++ mevents_kids ks, mvals ks)).
+      { destruct ks as [|k [|k2 ks2]]; try apply IH.
+        (* single child: the join of one result is the result *)
+        specialize (IH log). rewrite pmatch_join_cons in IH.
+        destruct (pmatch k log) as [l1 a].
+        change (pmatch_join PNil l1) with (l1, @nil N) in IH. cbv iota beta in IH.
+        rewrite app_nil_r in IH. exact IH. }
+      rewrite E. rewrite mcall_spec. cbn [Proc.mevents Proc.mval]. rewrite app_assoc. reflexivity.
+    - intros log. cbn. rewrite app_nil_r. reflexivity.
+    - intros k IHk ks IHks log. rewrite pmatch_join_cons, IHk, IHks.
+      cbn [Proc.mevents_kids Proc.mvals]. rewrite app_assoc. reflexivity.
+  Qed.
+
+  Lemma pmatch_spec t log : pmatch t log = (log ++ Proc.mevents mreg mproc t, mval t).
+  Proof. apply pmatch_spec_all. Qed.
+
+  Lemma pmatch_forest_spec ts log :
+    pmatch_forest mreg mproc ts log = log ++ flat_map (Proc.mevents mreg mproc) ts.
+  Proof.
+    revert log. induction ts as [|t ts IH]; intro log; cbn [pmatch_forest flat_map].
+    - rewrite app_nil_r. reflexivity.
+    - rewrite pmatch_spec. cbn [fst]. rewrite IH, app_assoc. reflexivity.
+  Qed.
+
+  (* innermost first, left to right: the calls of a registered node come after all calls of
+     its children, which come in child order; its argument is the concatenation of the
+     children's results *)
+  Lemma mevents_node r ks :
+    mreg r = true ->
+    Proc.mevents mreg mproc (PNode r ks) = mevents_kids ks ++ [(r, mvals ks)].
+  Proof. intro H. cbn [Proc.mevents]. rewrite H. reflexivity. Qed.
+
+  Lemma mevents_kids_cons k ks :
+    mevents_kids (PCons k ks) = Proc.mevents mreg mproc k ++ mevents_kids ks.
+  Proof. reflexivity. Qed.
+End MatchProofs.
